@@ -134,6 +134,8 @@ pub struct EnvInner {
     pub captured_sessions: Vec<(String, String)>,
     /// RF configuration of the most recent receive set-up (survives take_trace)
     pub last_window: Option<Rf>,
+    /// the radio's last configuration event was a continuous (Class C) receive set-up
+    pub rxc_armed: bool,
     pub resolver: Option<Resolver>,
     // board behaviour
     pub tx_ms: u32,
@@ -175,6 +177,7 @@ impl Env {
             capture_sessions: false,
             captured_sessions: vec![],
             last_window: None,
+            rxc_armed: false,
             resolver: None,
             tx_ms: 0,
             nb_async_tx: false,
@@ -189,7 +192,15 @@ impl Env {
     pub fn push(&self, e: Ev) {
         let mut inner = self.0.borrow_mut();
         match &e {
-            Ev::SetupRx { rf, .. } | Ev::RxRequest { rf } => inner.last_window = Some(*rf),
+            Ev::SetupRx { rf, single_ms } => {
+                inner.last_window = Some(*rf);
+                inner.rxc_armed = single_ms.is_none();
+            }
+            Ev::RxRequest { rf } => {
+                inner.last_window = Some(*rf);
+                inner.rxc_armed = false;
+            }
+            Ev::LowPower => inner.rxc_armed = false,
             _ => {}
         }
         inner.trace.push(e);
